@@ -121,6 +121,11 @@ def run(tier: str) -> Run:
     D = None
     for tbl, scatter, ltot in (('beamline(scatter=True)', True, 'Ltotal'), ('beamline(scatter=False)', False, 'Ltotal_no_scatter')):
         table = beamline_graph(repo, scatter)  # through the public factory, not a private table name
+        # the flag is used for its truth value (numpy booleans and 0/1 flags select the same graph)
+        alt = beamline_graph(repo, 1 if scatter else 0)
+        same = set(alt) == set(table) and all(isinstance(alt[k], FuncRef) and isinstance(table[k], FuncRef) and alt[k].fi.fq == table[k].fi.fq for k in table)
+        r6.check(same, f'{tbl}: a truthy / falsy flag selects the same graph', 'scippneutron/conversion/graph/beamline.py:beamline',
+                 {'keys_for_bool': sorted(map(str, table)), 'keys_for_int_flag': sorted(map(str, alt))}, key=f'{tbl}:truthiness')
         for key, ref in table.items():
             if not isinstance(ref, FuncRef):
                 raise AnalysisError(f'{tbl}[{key!r}] is not a function of the package')
